@@ -7,16 +7,17 @@ dst=/verif/seeded/$id
 mkdir -p $dst
 cp $wt/mutant.diff $dst/patch.diff
 cp $wt/demo.rs $dst/demo.rs 2>/dev/null || cp $wt/tests/$demo.rs $dst/demo.rs
+PKG=""; [ -f $wt/gsd-parser/tests/$demo.rs ] && PKG="-p gsd-parser"
 cp $wt/REPORT.md $dst/REPORT_by_author.md 2>/dev/null
 export CARGO_TARGET_DIR=$wt/target
 cd $wt
 # (git stash is shared between worktrees: never use it here) make sure exactly the author's patch is applied
 git checkout -q -- src gsd-parser/src && git apply mutant.diff
 echo "== demo WITH change (expected: FAIL)"
-cargo test --offline --test $demo 2>&1 | grep -E "^test result|FAILED|panicked" | head -5
+cargo test --offline $PKG --test $demo 2>&1 | grep -E "^test result|FAILED|panicked" | head -5
 git checkout -q -- src gsd-parser/src
 echo "== demo WITHOUT change (expected: ok)"
-cargo test --offline --test $demo 2>&1 | grep -E "^test result" | head -3
+cargo test --offline $PKG --test $demo 2>&1 | grep -E "^test result" | head -3
 git apply mutant.diff
 unset CARGO_TARGET_DIR
 echo "== repo suite with the change applied in /repo"
